@@ -332,7 +332,9 @@ def keyfn(tag, inp, exp, got):
         where = '?'
     parts = tag.split('/')
     if parts[0] == 'switch':
-        tag = 'switch/' + parts[1]
+        # an if-chain over an untyped subject is not switchable: its `in` / `not in` conditions are plain literal-container
+        # membership tests of objects and are keyed with that family
+        tag = 'switch/' + parts[1] if parts[1] != 'obj' else 'lit/obj/if-chain'
     elif parts[0] == 'lit':
         tag = '/'.join(parts[:3])
     cl = sorted(set(g5.classify(e).split(':')[0].split('[')[0] for e in inp))
